@@ -107,6 +107,13 @@ theorem np_save_image_rgb (img : Tensor ℝ) (H W C d : Nat) (hs : img.shape = [
       · subst h2; codec_simp [GenIC.np_save_image, hs, h1, genLevel, clipSeq, chanSwap]
       · codec_simp [GenIC.np_save_image, hs, h1, genLevel, clipSeq, chanSwap, h0, h2]
 
+/-- a bit depth that is neither 8 nor 16: the source does not cast - the array handed to `cv2.imwrite` holds the scaled, UNTRUNCATED
+    values (the hand-written `saveLevel` truncates for every depth) -/
+theorem np_save_image_other_depth (img : Tensor ℝ) (H W d : Nat) (hs : img.shape = [H, W]) (h8 : d ≠ 8) (h16 : d ≠ 16) (cmin cmax : ℝ) :
+    (GenIC.np_save_image img cmin cmax d).shape = [H, W] ∧
+    ∀ i j, (GenIC.np_save_image img cmin cmax d).get [i, j] = clipSeq cmin cmax (img.get [i, j]) / cmax * ((2 : ℝ) ^ d - 1) := by
+  refine ⟨?_, fun i j => ?_⟩ <;> codec_simp [GenIC.np_save_image, hs, h8, h16, clipSeq]
+
 theorem allElems_of_forall {α : Type} (t : Tensor α) (p : α → Bool) (h : ∀ idx, p (t.get idx) = true) : allElems t p = true := by
   unfold allElems
   rw [List.all_eq_true]
